@@ -51,7 +51,7 @@ def shape_case(draw):
     X = Y @ basis[:r, :] + offset
     rot = orthonormal(draw(gens.array((d, d), -1.0, 1.0, styles=("raw",))) if d > 1 else [[1.0]])
     return dict(Y=Y.tolist(), X=X.tolist(), d=d, r=r, kind=kind, rot=rot.tolist(), shift=draw(gens.array((d,), -10.0, 10.0, styles=("raw",))),
-                lam=draw(gens.log_uniform(1e-3, 1e3)), seed=draw(st.integers(0, 2 ** 31 - 1)),
+                lam=draw(gens.log_uniform(1e-3, 1e3)), seed=draw(gens.seed_value()),
                 extra=draw(gens.array((2, r), -4.0, 4.0, styles=("raw",))))
 
 
@@ -153,7 +153,7 @@ def body_width(case):
     scale = diam + 1e-300
     # the options are implementation choices (loop / vectorised, centring the data first): all four combinations give the same
     # number for the same seed, also for the shifted cloud; one case in eight uses many directions (n * points > 2**20)
-    n_opt = n if seed % 8 else int(2 ** 20 // X.shape[0]) + 1500
+    n_opt = n if seed % 8 != 3 else int(2 ** 20 // X.shape[0]) + 1500
     with calling(f"compute_mean_width (options, n={n_opt})"):
         combos = {(v, c): float(dreye.compute_mean_width(X + np.asarray(case["shift"]), n=n_opt, seed=seed, vectorized=v, center=c))
                   for v in ((False, True) if n_opt == n else (True,)) for c in (False, True)}
@@ -195,7 +195,7 @@ def gamut_case(draw):
     X = X + np.eye(m)[np.arange(k) % m] * 0.5            # no all-zero rows, full-dimensional chromaticities
     sup = np.asarray(draw(gens.array((3, m), 0.0, 10.0, styles=("raw",)))).reshape(3, m) + 0.1
     return dict(X=X.tolist(), extra=sup.tolist(), lam=draw(gens.log_uniform(1e-3, 1e3)), rowlam=draw(gens.array((k,), 0.1, 10.0, styles=("raw",))),
-                metric=draw(st.sampled_from(["width", "volume"])), seed=draw(st.integers(0, 2 ** 31 - 1)), at_l1=draw(st.booleans()), l1_t=draw(st.floats(0.2, 0.8)),
+                metric=draw(st.sampled_from(["width", "volume"])), seed=draw(gens.seed_value()), at_l1=draw(st.booleans()), l1_t=draw(st.floats(0.2, 0.8)),
                 zero_rows=draw(st.sampled_from(["none", "none", "both", "reference"])))
 
 
@@ -287,7 +287,7 @@ def est_gamut_case(draw):
     c["ub"] = draw(gens.array((Ssrc.shape[0],), 0.5, 10.0, styles=("raw",)))
     c["lb"] = None
     c["metric"] = draw(st.sampled_from(["width", "volume"]))
-    c["seed"] = draw(st.integers(0, 2 ** 31 - 1))
+    c["seed"] = draw(gens.seed_value())
     return c
 
 
